@@ -35,7 +35,7 @@ RECURSIVE NoteFrames(_, _, _, _, _)
 NoteFrames(qq, frames, i, tcp, fd) ==
   IF i > Len(frames) THEN qq
   ELSE LET f == frames[i]
-           rec == [key |-> Key(f.kname, f.qt, f.rd, f.cd), lname |-> f.lname, name |-> f.name, qt |-> f.qt, tcp |-> tcp, fd |-> fd]
+           rec == [key |-> Key(f.kname, f.qt, f.rd, f.cd), lname |-> f.lname, name |-> f.name, qt |-> f.qt, tcp |-> tcp, fd |-> fd, pend |-> IF f.qid \in DOMAIN qq THEN qq[f.qid].pend ELSE <<>>]
        IN IF f.bad = 1 THEN NoteFrames(qq, frames, i + 1, tcp, fd)
           ELSE NoteFrames(IF f.qid \in DOMAIN qq THEN [qq EXCEPT ![f.qid] = rec] ELSE qq @@ (f.qid :> rec), frames, i + 1, tcp, fd)
 
@@ -53,12 +53,11 @@ HSk(e) ==
          /\ (IF Len(cur) > 0 THEN MarkSent ELSE UNCHANGED cur)
          /\ UNCHANGED <<ccfg, cnow, cache, csrv, creq>> /\ Acc
     [] e.op = "recv" /\ e.res = "ok" /\ "pid" \in DOMAIN e ->
+         \* a cacheable reply that matches an outstanding query is a candidate; whether the library accepted it is
+         \* witnessed by the completion callback that delivers that very record (see HCbb)
          IF e.fromok = 1 /\ Matches(e) /\ Cacheable(e)
-         THEN /\ cache' = (IF cq[e.qid].key \in DOMAIN cache THEN [cache EXCEPT ![cq[e.qid].key] = Entry(e, e.pid)]
-                           ELSE cache @@ (cq[e.qid].key :> Entry(e, e.pid)))
-              \* a cacheable answer is a final answer: the query is over, later copies are not looked at
-              /\ cq' = [x \in (DOMAIN cq) \ {e.qid} |-> cq[x]]
-              /\ UNCHANGED <<ccfg, cnow, csrv, xv>> /\ Acc
+         THEN /\ cq' = [cq EXCEPT ![e.qid].pend = Append(@, Entry(e, e.pid))]
+              /\ UNCHANGED <<ccfg, cnow, cache, csrv, xv>> /\ Acc
          ELSE Skip
     [] e.op = "recv" /\ e.res = "ok" /\ "stream" \in DOMAIN e -> Stop      \* TCP answers: see C20; not needed for cache rules
     [] OTHER -> Skip
@@ -70,7 +69,19 @@ HCbb(e) ==
       fromcache == incall /\ ~cur[Len(cur)].sent /\ e.rec = 1 /\ e.t \in DOMAIN creq
       k == creq[e.t].key
   IN
-  IF ~fromcache THEN Skip
+  IF ~fromcache THEN
+       \* an answer just accepted from the network: the candidate that equals the delivered record enters the cache,
+       \* the query is over (later copies are not looked at)
+       IF e.rec = 1 /\ e.rid \in DOMAIN cq /\ cq[e.rid].pend # <<>> THEN
+            LET pd == cq[e.rid].pend
+                ok == {i \in 1..Len(pd) : pd[i].ttls = e.ttls /\ pd[i].rcode = e.rcode}
+            IN IF ok = {} THEN cq' = Without(cq, {e.rid}) /\ UNCHANGED <<ccfg, cnow, cache, csrv, xv>> /\ Acc
+               ELSE LET ent == pd[CHOOSE i \in ok : \A j \in ok : i <= j]
+                        kk == cq[e.rid].key
+                    IN /\ cache' = (IF kk \in DOMAIN cache THEN [cache EXCEPT ![kk] = ent] ELSE cache @@ (kk :> ent))
+                       /\ cq' = Without(cq, {e.rid})
+                       /\ UNCHANGED <<ccfg, cnow, csrv, xv>> /\ Acc
+       ELSE Skip
   ELSE IF ccfg.qcache = 0 THEN Rej("c08.replayed_although_cache_disabled")
   ELSE IF k \notin DOMAIN cache THEN Rej("c08.replayed_without_cacheable_answer_for_key")
   ELSE IF cache[k].rid # e.rid THEN Rej("c08.replayed_answer_of_other_question")
